@@ -11,6 +11,11 @@ def make_project(seed, nfiles, workdir, size=0.8):
     for i in range(nfiles):
         text, _, _ = javagen.gen_unit(seed + 500, i, size=size)
         files.append(('src/p%d/F%d.java' % (i % 3, i), text.encode()))
+    # twins: entities of one kind with the same name and the same text in different files (or lines) that differ in
+    # another attribute (scope, visibility of the enclosing declaration, Javadoc, line) — what a cache or an index
+    # keyed by name/text would confuse
+    files.append(('src/twins/TwinA.java', b'/** @author ann */\nclass TwinA {\n  int count = 0;\n  String label = "he said \\"hi\\"";\n  void run() { helper(1); }\n}\n'))
+    files.append(('src/twins/TwinB.java', b'class TwinB {\n  void other() {\n    int count = 0;\n    String label = "he said \\"hi\\"";\n    helper(1);\n  }\n  /** @author bob */\n  void run() { helper(1); }\n}\n'))
     proj = workdir + '/proj'
     qrun.write_project(proj, files)
     return proj, files
